@@ -4,11 +4,11 @@
 package xport
 
 import (
-	"runtime"
 	"errors"
 	"fmt"
 	"io"
 	"net"
+	"runtime"
 	"sync"
 	"time"
 )
